@@ -167,6 +167,7 @@ struct R7 {
 pub enum Case7 {
     F(FwdCase),
     S(ScalarCase),
+    Q(SeqCase),
 }
 impl CaseKind for Case7 {
     const KIND: &'static str = "c07-any";
@@ -174,18 +175,21 @@ impl CaseKind for Case7 {
         match self {
             Case7::F(c) => c.size(),
             Case7::S(c) => c.size(),
+            Case7::Q(c) => c.size(),
         }
     }
     fn sample(&self) -> Value {
         match self {
             Case7::F(c) => c.sample(),
             Case7::S(c) => c.sample(),
+            Case7::Q(c) => c.sample(),
         }
     }
     fn run(&self) -> Outcome {
         match self {
             Case7::F(c) => c.run(),
             Case7::S(c) => c.run(),
+            Case7::Q(c) => c.run(),
         }
     }
 }
@@ -301,6 +305,17 @@ pub fn campaigns(ctx: &Ctx) -> Stats {
             }
             let kind = if matches!(op, Sum(_) | Relu) { VKind::Int } else { VKind::Small };
             Some(Case7::F(FwdCase { op, leaves: vec![LeafSpec { dims: d.clone(), vals: gen_vals(i, numel(&d), kind), tracked: false }], force_exact: None, second_is_view_of_first: None }))
+        }));
+    }
+    {
+        use OpKind::*;
+        let groups: Vec<Vec<Vec<usize>>> = vec![vec![vec![3, 1], vec![1, 3], vec![3]], vec![vec![4, 1], vec![4], vec![2, 2]], vec![vec![2, 3, 2], vec![6, 2], vec![12], vec![2, 6]], vec![vec![2, 1, 3], vec![3, 2], vec![1, 6]]];
+        let sops = [Sum(1), Softmax, Sum(2), Exp, Relu, Sigmoid];
+        st.merge(ctx.run_indexed("call-sequences", (groups.len() * sops.len()) as u64, None, |i| {
+            let g = &groups[i as usize % groups.len()];
+            let op = sops[i as usize / groups.len()].clone();
+            let calls: Vec<FwdCase> = g.iter().filter(|d| !matches!(op, Sum(k) if k > d.len())).enumerate().map(|(n, d)| FwdCase { op: op.clone(), leaves: vec![LeafSpec { dims: d.clone(), vals: gen_vals(i + n as u64, numel(d), VKind::Small), tracked: n % 2 == 1 }], force_exact: None, second_is_view_of_first: None }).collect();
+            Some(Case7::Q(SeqCase { calls }))
         }));
     }
     let (max_rank, max_size, total) = t.pick((4usize, 9usize, 40000u64), (5, 13, 600000));
